@@ -42,6 +42,7 @@ type QFact struct {
 	guard   Term
 	varSym  string
 	varSort Sort // sort of the bound variable ("" = Int)
+	varPtr  bool // the variable ranges over references ("*T"): never instantiated at integer terms
 	body    Term // range ==> body, with varSym free
 	unfolds []unfoldT
 }
@@ -139,7 +140,7 @@ func (vc *VC) assumeClause(guard Term, env *Env, cl *Clause) {
 			continue
 		}
 		if q.Forall {
-			vc.qfacts = append(vc.qfacts, &QFact{lineIdx: len(vc.lines), guard: and(guard, h), varSym: v, varSort: q.varSort(), body: implies(rng, body), unfolds: unf})
+			vc.qfacts = append(vc.qfacts, &QFact{lineIdx: len(vc.lines), guard: and(guard, h), varSym: v, varSort: q.varSort(), varPtr: strings.HasPrefix(q.VarTyp, "*"), body: implies(rng, body), unfolds: unf})
 			continue
 		}
 		w := vc.fresh("ex:"+q.Var, q.varSort())
@@ -162,7 +163,7 @@ func (vc *VC) assumeClause(guard Term, env *Env, cl *Clause) {
 			if err != nil {
 				continue
 			}
-			vc.qfacts = append(vc.qfacts, &QFact{lineIdx: len(vc.lines), guard: and(guard, h, ih), varSym: iv, varSort: iq.varSort(), body: implies(irng, ibody)})
+			vc.qfacts = append(vc.qfacts, &QFact{lineIdx: len(vc.lines), guard: and(guard, h, ih), varSym: iv, varSort: iq.varSort(), varPtr: strings.HasPrefix(iq.VarTyp, "*"), body: implies(irng, ibody)})
 		}
 	}
 }
@@ -204,6 +205,10 @@ func (vc *VC) obligeClause(kind, label, site string, guard Term, env *Env, cl *C
 			o.Extra = append(o.Extra, fmt.Sprintf("(declare-const %s %s)", sk.S, sk.Sort))
 			for _, u := range unf {
 				o.Extra = append(o.Extra, "(assert "+subst(eq(u.app, u.body), v, sk).S+")")
+			}
+			if strings.HasPrefix(q.VarTyp, "*") {
+				vc.addInstancesPtr(o, nil, []Term{sk})
+				continue
 			}
 			if sk.Sort == SStr {
 				// string-keyed quantifier (map keys): instances at the skolem
@@ -302,12 +307,27 @@ func (vc *VC) strCellTerms(env *Env) []Term {
 }
 
 func (vc *VC) addInstances(o *Obligation, cands []Term) {
+	vc.addInstancesPtr(o, cands, nil)
+}
+
+// addInstancesPtr: ptrCands are reference-valued terms (the skolem of a
+// "forall x *T" goal) at which reference-typed quantified facts are
+// instantiated; all other facts are instantiated at cands.
+func (vc *VC) addInstancesPtr(o *Obligation, cands []Term, ptrCands []Term) {
 	for _, qf := range vc.qfacts {
 		if qf.lineIdx > o.PrefixLen {
 			continue
 		}
+		if qf.varPtr {
+			for _, c := range ptrCands {
+				o.Extra = append(o.Extra, "(assert "+implies(qf.guard, subst(qf.body, qf.varSym, c)).S+")")
+			}
+			continue
+		}
 		for _, c := range cands {
-			if (qf.varSort == SStr) != (c.Sort == SStr) {
+			if (qf.varSort == SStr) != (c.Sort == SStr) || qf.varPtr {
+				// reference-typed quantifiers are left to the solver's own
+				// instantiation (the quantified fact is in the context)
 				continue
 			}
 			o.Extra = append(o.Extra, "(assert "+implies(qf.guard, subst(qf.body, qf.varSym, c)).S+")")
